@@ -1,5 +1,6 @@
 import TransportVerif.Props.C01
 import TransportVerif.Props.C01Reply
+import TransportVerif.Props.C01NatStable
 #print axioms TV.Props.C01.accounting
 #print axioms TV.Props.C01.delivered_at_most_once
 #print axioms TV.Props.C01.nothing_missing_at_rest
@@ -15,3 +16,6 @@ import TransportVerif.Props.C01Reply
 #print axioms TV.Props.C01Reply.reply_reaches_sender
 #print axioms TV.Props.C01Reply.reply_within_lifetime
 #print axioms TV.Props.C01Reply.reply_reaches_sender_one2one
+#print axioms TV.Props.C01NatStable.inbound_key_stable
+#print axioms TV.Props.C01NatStable.inbound_goes_to_the_owner
+#print axioms TV.Props.C01NatStable.inbound_key_stable_one2one
